@@ -31,8 +31,11 @@ fn strategies(thorough: bool) -> Vec<MachineInitStrategy> {
 #[derive(Clone, Copy, Debug)]
 struct Cfg { strat: MachineInitStrategy, range: u8, tseed: u64, prog: usize, kb: u8, flags: u8, /** scale: 50000 steps (tens of thousands of timer intervals drawn) instead of the usual horizon */ long: bool }
 
-fn make(c: &Cfg) -> (Simulator, BufferedDisplay) {
+fn make(c: &Cfg) -> (Simulator, BufferedDisplay) { make_via(c, false) }
+/// `reset_first`: the freshly constructed simulator is `reset()` before anything is loaded or attached (same configuration, one more life-cycle step)
+fn make_via(c: &Cfg, reset_first: bool) -> (Simulator, BufferedDisplay) {
     let mut sim = Simulator::new(SimFlags { machine_init: c.strat, use_real_traps: c.flags & 1 == 1, strict: false, debug_frames: c.flags & 2 == 2, ignore_privilege: c.prog >= 5 });
+    if reset_first { sim.reset(); }
     let p = assemble(parse_ast(PROGRAMS[c.prog]).unwrap()).unwrap();
     let h = assemble(parse_ast(HANDLER).unwrap()).unwrap();
     sim.load_obj_file(&p).unwrap(); sim.load_obj_file(&h).unwrap();
@@ -58,7 +61,7 @@ fn check(c: &Cfg, steps: usize) -> Result<u64, (String, String)> {
     // Nondeterminism of the subject shows up as run-to-run differences, possibly only sometimes: compare several independently
     // built simulators against the first one, so that a random tie-break or entropy source is caught (and re-caught on replay) with near certainty.
     let mut total = 0u64;
-    for rep in 0..4 { total = check_pair(c, steps, &what, rep)?; }
+    for rep in 0..5 { total = check_pair(c, steps, &what, rep)?; }
     Ok(total)
 }
 /// `rep` varies what happens in the process between the two constructions (nothing / a simulator with another strategy is built /
@@ -67,13 +70,15 @@ fn check_pair(c: &Cfg, steps: usize, what: &str, rep: u32) -> Result<u64, (Strin
     let what = what.to_string();
     let r = catch(|| -> Result<u64, (String, String)> {
         let (mut a, da) = make(c);
-        match rep % 4 {
+        match rep {
             1 => { let other = Simulator::new(SimFlags { machine_init: MachineInitStrategy::Seeded { seed: 0x5EED }, ..Default::default() }); std::hint::black_box(&other); }
             2 => { let (mut x, _) = make(c); for _ in 0..25 { let _ = x.step_in(); } x.reset(); }
             3 => { let other = Simulator::new(SimFlags { machine_init: MachineInitStrategy::Known { value: 0x0F0F }, ..Default::default() }); std::hint::black_box(&other); let (x, _) = make(c); std::hint::black_box(&x); }
             _ => {}
         }
-        let (mut b, db) = make(c);
+        // (rep 4: the second simulator went through new -> reset -> load; under every deterministic strategy that is the same machine)
+        if rep == 4 && matches!(c.strat, MachineInitStrategy::Unseeded) { return Ok(0); }
+        let (mut b, db) = make_via(c, rep == 4);
         // initial state identical, and Known fills everything outside the OS image, the loaded program and the I/O page
         for x in 0..=0xFFFFu16 { if a.mem[x] != b.mem[x] { return Err(("initial-memory-differs".into(), format!("{what}: two simulators built alike start with different memory"))); } }
         for i in 0..8 { if a.reg_file[reg(i)] != b.reg_file[reg(i)] { return Err(("initial-registers-differ".into(), format!("{what}: two simulators built alike start with different registers"))); } }
